@@ -106,6 +106,6 @@ fn rerun_merkle(input: &str) -> Option<String> { merkle_check(&dec(input.rsplit(
 
 pub fn contracts() -> Vec<Contract> {
     vec![Contract { name: "merkle.reference_tree", covers: &["Hash::data", "Hash::parent", "Hash::tree", "fn signable_tree", "MerkleTreeChangeset::append", "MerkleTreeChangeset::append_root", "MerkleTreeChangeset::hash_and_sign",
-        "MerkleTreeChangeset::signable", "MerkleTreeChangeset::hash", "MerkleTree::flush_nodes", "MerkleTree::commit", "MerkleTree::open", "MerkleTree::truncate", "MerkleTree::create_valueless_proof", "fn node_from_bytes", "fn block_node", "fn parent_node"],
+        "MerkleTreeChangeset::signable", "MerkleTreeChangeset::hash", "MerkleTree::flush_nodes", "MerkleTree::commit", "MerkleTree::open", "MerkleTree::truncate", "Hypercore::new", "MerkleTree::create_valueless_proof", "fn node_from_bytes", "fn block_node", "fn parent_node"],
         search: search_merkle, rerun: rerun_merkle }]
 }
